@@ -44,20 +44,35 @@ Qed.
 (* one step of a pipeline runs every closure at most once (per occurrence of its id) *)
 Lemma next_count : forall id p q, (count id (fst (next p q)) <= occ_pipe id p)%nat.
 Proof.
-  intros id p. induction p as [n|l|s p IH|p1 IH1 p2 IH2]; intros q; cbn [next occ_pipe].
+  intros id p. induction p as [n|l|s p IH|p1 IH1 p2 IH2|ci g p1 IH1 p2 IH2|ci less p1 IH1 p2 IH2]; intros q; cbn [next occ_pipe].
   - destruct q; try (cbn; lia). destruct (i <? n); cbn; lia.
   - destruct q; try (cbn; lia). destruct rest; cbn; lia.
-  - destruct q as [| |ss q'|]; try (cbn; lia).
+  - destruct q as [| |ss q'| | |]; try (cbn; lia).
     destruct (stage_done s ss); [cbn; lia|].
     specialize (IH q'). destruct (next p q') as [l r]. cbn [fst] in IH.
     destruct r as [|q''|v q''|e]; cbn [fst]; try lia.
     pose proof (stage_item_count id s ss l v q''). lia.
-  - destruct q as [| | |r q1 q2]; try (cbn; lia).
+  - destruct q as [| | |r q1 q2| |]; try (cbn; lia).
     destruct r.
     + specialize (IH2 q2). destruct (next p2 q2) as [l r]. cbn [fst] in IH2.
       destruct r; cbn [fst]; lia.
     + specialize (IH1 q1). destruct (next p1 q1) as [l r]. cbn [fst] in IH1.
       destruct r; cbn [fst]; lia.
+  - destruct q as [| | | |row q1 q2|]; try (cbn; lia).
+    destruct row as [a|].
+    + specialize (IH2 q2). destruct (next p2 q2) as [l r]. cbn [fst] in IH2.
+      destruct r as [|q2'|b q2'|e]; cbn [fst]; try lia.
+      destruct (g a b); cbn [fst]; rewrite count_app, count_one; lia.
+    + specialize (IH1 q1). destruct (next p1 q1) as [l r]. cbn [fst] in IH1.
+      destruct r; cbn [fst]; lia.
+  - destruct q as [| | | | |ea eb a b q1 q2]; try (cbn; lia).
+    pose proof (b2n_le1 (N.eqb ci id)) as Hb.
+    specialize (IH1 q1). specialize (IH2 q2).
+    destruct (next p1 q1) as [l1 r1]. destruct (next p2 q2) as [l2 r2]. cbn [fst] in IH1, IH2.
+    destruct a as [x|]; destruct ea; destruct b as [y|]; destruct eb;
+      try (destruct r1; cbn [fst]; lia); try (destruct r2; cbn [fst]; lia);
+      try (cbn [fst]; cbn; lia);
+      try (destruct (less x y) as [[|]|]; cbn [fst]; rewrite count_one; lia).
 Qed.
 
 Lemma term_item_count : forall id t s v, (count id (fst (term_item t s v)) <= occ_term id t)%nat.
@@ -179,6 +194,8 @@ Fixpoint agree_pipe (L : log) (M : Z) (p p' : pipe) : Prop :=
   | PList l, PList l' => l = l'
   | PStage s p1, PStage s' p1' => agree_stage L s s' /\ agree_pipe L M p1 p1'
   | PApp a b, PApp a' b' => agree_pipe L M a a' /\ agree_pipe L M b b'
+  | PCross i g a b, PCross i' g' a' b' => i = i' /\ agree2 L i g g' /\ agree_pipe L M a a' /\ agree_pipe L M b b'
+  | PMerge i g a b, PMerge i' g' a' b' => i = i' /\ agree2 L i g g' /\ agree_pipe L M a a' /\ agree_pipe L M b b'
   | _, _ => False
   end.
 
@@ -199,14 +216,18 @@ Fixpoint qbound (j : Z) (q : pstate) : Prop :=
   | QList _ => True
   | QStage _ q' => qbound j q'
   | QApp _ a b => qbound j a /\ qbound j b
+  | QCross _ a b => qbound j a /\ qbound j b
+  | QMerge _ _ _ _ a b => qbound j a /\ qbound j b
   end.
 
 Lemma qbound_mono : forall q j j', qbound j q -> j <= j' -> qbound j' q.
 Proof.
-  induction q as [i|r|ss q IH|r a IHa b IHb]; cbn [qbound]; intros j j' H Hle.
+  induction q as [i|r|ss q IH|r a IHa b IHb|r a IHa b IHb|ea eb x y a IHa b IHb]; cbn [qbound]; intros j j' H Hle.
   - lia.
   - exact I.
   - eapply IH; eassumption.
+  - destruct H as [Ha Hb]. split; [eapply IHa|eapply IHb]; eassumption.
+  - destruct H as [Ha Hb]. split; [eapply IHa|eapply IHb]; eassumption.
   - destruct H as [Ha Hb]. split; [eapply IHa|eapply IHb]; eassumption.
 Qed.
 
@@ -218,17 +239,20 @@ Definition step_bound (j : Z) (r : step) : Prop :=
 
 Lemma init_qbound : forall p, qbound 0 (init p).
 Proof.
-  induction p as [n|l|s p IH|p1 IH1 p2 IH2]; cbn [init qbound]; try lia; try exact I; auto.
+  induction p as [n|l|s p IH|p1 IH1 p2 IH2|ci g p1 IH1 p2 IH2|ci g p1 IH1 p2 IH2]; cbn [init qbound]; try lia; try exact I; auto.
 Qed.
 
 Lemma init_agree : forall L M p p', agree_pipe L M p p' -> init p' = init p.
 Proof.
-  intros L M p. induction p as [n|l|s p IH|p1 IH1 p2 IH2]; intros p' H; destruct p' as [n'|l'|s' p'|p1' p2'];
+  intros L M p. induction p as [n|l|s p IH|p1 IH1 p2 IH2|ci g p1 IH1 p2 IH2|ci g p1 IH1 p2 IH2]; intros p' H;
+    destruct p' as [n'|l'|s' p'|p1' p2'|ci' g' p1' p2'|ci' g' p1' p2'];
     cbn [agree_pipe] in H; try contradiction; cbn [init].
   - reflexivity.
   - congruence.
   - destruct H as [_ H]. rewrite (IH _ H). reflexivity.
   - destruct H as [H1 H2]. rewrite (IH1 _ H1), (IH2 _ H2). reflexivity.
+  - destruct H as [_ [_ [H1 H2]]]. rewrite (IH1 _ H1), (IH2 _ H2). reflexivity.
+  - destruct H as [_ [_ [H1 H2]]]. rewrite (IH1 _ H1), (IH2 _ H2). reflexivity.
 Qed.
 
 Lemma stage_item_log : forall s ss l v q, exists l1, fst (stage_item s ss l v q) = l ++ l1.
@@ -307,20 +331,20 @@ Qed.
 (* One step: if every numbers source has produced at most j < M elements so far, the step of the
    changed pipeline is the same, and afterwards every source has produced at most j+1. *)
 Lemma next_agree : forall L M p p' q j,
-  agree_pipe L M p p' -> qbound j q -> j < M -> incl (fst (next p q)) L ->
+  agree_pipe L M p p' -> qbound j q -> 0 <= j < M -> incl (fst (next p q)) L ->
   next p' q = next p q /\ step_bound (j + 1) (snd (next p q)).
 Proof.
-  intros L M p. induction p as [n|l|s p IH|p1 IH1 p2 IH2]; intros p' q j Ha Hq Hj Hin;
-    destruct p' as [n'|l'|s' p'|p1' p2']; cbn [agree_pipe] in Ha; try contradiction.
-  - destruct q as [i| | |]; cbn [next]; try (split; [reflexivity|exact I]).
+  intros L M p. induction p as [n|l|s p IH|p1 IH1 p2 IH2|ci g p1 IH1 p2 IH2|ci less p1 IH1 p2 IH2]; intros p' q j Ha Hq Hj Hin;
+    destruct p' as [n'|l'|s' p'|p1' p2'|ci' g' p1' p2'|ci' less' p1' p2']; cbn [agree_pipe] in Ha; try contradiction.
+  - destruct q as [i| | | | |]; cbn [next]; try (split; [reflexivity|exact I]).
     cbn [qbound] in Hq.
     assert (E : (i <? n') = (i <? n)).
     { destruct Ha as [->|[H1 H2]]; [reflexivity|].
       destruct (Z.ltb_spec i n'), (Z.ltb_spec i n); try reflexivity; lia. }
     rewrite E. split; [reflexivity|]. destruct (i <? n); cbn; lia.
-  - subst l'. split; [reflexivity|]. destruct q as [|r| |]; cbn [next]; try exact I.
+  - subst l'. split; [reflexivity|]. destruct q as [|r| | | |]; cbn [next]; try exact I.
     destruct r; cbn; exact I.
-  - destruct Ha as [Hs Hp]. destruct q as [| |ss q'|]; cbn [next]; try (split; [reflexivity|exact I]).
+  - destruct Ha as [Hs Hp]. destruct q as [| |ss q'| | |]; cbn [next]; try (split; [reflexivity|exact I]).
     rewrite (stage_done_agree L s s' ss Hs).
     cbn [next] in Hin. cbn [qbound] in Hq.
     destruct (stage_done s ss); [split; [reflexivity|exact I]|].
@@ -335,7 +359,7 @@ Proof.
     + split; [reflexivity|exact Hb].
     + split; [apply (stage_item_agree L); assumption|apply stage_item_bound; exact Hb].
     + split; [reflexivity|exact I].
-  - destruct Ha as [Ha1 Ha2]. destruct q as [| | |r q1 q2]; cbn [next]; try (split; [reflexivity|exact I]).
+  - destruct Ha as [Ha1 Ha2]. destruct q as [| | |r q1 q2| |]; cbn [next]; try (split; [reflexivity|exact I]).
     cbn [next] in Hin. cbn [qbound] in Hq. destruct Hq as [Hq1 Hq2].
     assert (Hq1' : qbound (j + 1) q1) by (eapply qbound_mono; [exact Hq1|lia]).
     assert (Hq2' : qbound (j + 1) q2) by (eapply qbound_mono; [exact Hq2|lia]).
@@ -350,6 +374,83 @@ Proof.
       destruct (IH1 p1' q1 j Ha1 Hq1 Hj Hin') as [En Hb]. rewrite En.
       destruct (next p1 q1) as [l r]. cbn [snd] in Hb.
       destruct r; cbn [step_bound snd qbound] in *; split; auto.
+  - (* cross *)
+    destruct Ha as [<- [Hg [Ha1 Ha2]]]. destruct q as [| | | |row q1 q2|]; cbn [next]; try (split; [reflexivity|exact I]).
+    cbn [next] in Hin. cbn [qbound] in Hq. destruct Hq as [Hq1 Hq2].
+    assert (Hq1' : qbound (j + 1) q1) by (eapply qbound_mono; [exact Hq1|lia]).
+    assert (Hq2' : qbound (j + 1) q2) by (eapply qbound_mono; [exact Hq2|lia]).
+    rewrite (init_agree _ _ _ _ Ha2).
+    destruct row as [a|].
+    + assert (Hin' : incl (fst (next p2 q2)) L).
+      { destruct (next p2 q2) as [l r]. destruct r as [|q2'|b q2'|e]; cbn [fst] in *; try exact Hin.
+        destruct (g a b); cbn [fst] in Hin; intros z Hz; apply Hin; apply in_or_app; left; exact Hz. }
+      destruct (IH2 p2' q2 j Ha2 Hq2 Hj Hin') as [En Hb]. rewrite En.
+      destruct (next p2 q2) as [l r]. cbn [snd] in Hb.
+      destruct r as [|q2'|b q2'|e]; cbn [step_bound snd qbound] in *; try (split; auto).
+      * assert (E : g a b = g' a b).
+        { apply Hg. destruct (g a b); cbn [fst] in Hin; exact (in_app_one _ _ _ Hin). }
+        rewrite <- E. reflexivity.
+      * destruct (g a b); cbn [snd step_bound qbound]; auto.
+    + assert (Hin' : incl (fst (next p1 q1)) L).
+      { destruct (next p1 q1) as [l r]. destruct r; exact Hin. }
+      destruct (IH1 p1' q1 j Ha1 Hq1 Hj Hin') as [En Hb]. rewrite En.
+      destruct (next p1 q1) as [l r]. cbn [snd] in Hb.
+      destruct r; cbn [step_bound snd qbound] in *; split; auto.
+      split; [assumption|]. eapply qbound_mono; [apply init_qbound|lia].
+  - (* merge *)
+    destruct Ha as [<- [Hg [Ha1 Ha2]]]. destruct q as [| | | | |ea eb a b q1 q2]; cbn [next]; try (split; [reflexivity|exact I]).
+    cbn [next] in Hin. cbn [qbound] in Hq. destruct Hq as [Hq1 Hq2].
+    assert (Hq1' : qbound (j + 1) q1) by (eapply qbound_mono; [exact Hq1|lia]).
+    assert (Hq2' : qbound (j + 1) q2) by (eapply qbound_mono; [exact Hq2|lia]).
+    assert (S1 : forall ea' eb' (b' : option Z), incl (fst (next p1 q1)) L ->
+       (match next p1' q1 with
+        | (l, Done) => (l, Skip (QMerge true eb' None b' q1 q2))
+        | (l, Skip q1') => (l, Skip (QMerge ea' eb' None b' q1' q2))
+        | (l, Item x q1') => (l, Skip (QMerge ea' eb' (Some x) b' q1' q2))
+        | (l, Fail e) => (l, Fail e) end)
+       = (match next p1 q1 with
+        | (l, Done) => (l, Skip (QMerge true eb' None b' q1 q2))
+        | (l, Skip q1') => (l, Skip (QMerge ea' eb' None b' q1' q2))
+        | (l, Item x q1') => (l, Skip (QMerge ea' eb' (Some x) b' q1' q2))
+        | (l, Fail e) => (l, Fail e) end)
+       /\ step_bound (j + 1) (snd (match next p1 q1 with
+        | (l, Done) => (l, Skip (QMerge true eb' None b' q1 q2))
+        | (l, Skip q1') => (l, Skip (QMerge ea' eb' None b' q1' q2))
+        | (l, Item x q1') => (l, Skip (QMerge ea' eb' (Some x) b' q1' q2))
+        | (l, Fail e) => (l, Fail e) end))).
+    { intros ea' eb' b' Hi. destruct (IH1 p1' q1 j Ha1 Hq1 Hj Hi) as [En Hb]. rewrite En.
+      destruct (next p1 q1) as [l r]. cbn [snd] in Hb.
+      destruct r; cbn [step_bound snd qbound] in *; split; auto. }
+    assert (S2 : forall ea' eb' (a' : option Z), incl (fst (next p2 q2)) L ->
+       (match next p2' q2 with
+        | (l, Done) => (l, Skip (QMerge ea' true a' None q1 q2))
+        | (l, Skip q2') => (l, Skip (QMerge ea' eb' a' None q1 q2'))
+        | (l, Item y q2') => (l, Skip (QMerge ea' eb' a' (Some y) q1 q2'))
+        | (l, Fail e) => (l, Fail e) end)
+       = (match next p2 q2 with
+        | (l, Done) => (l, Skip (QMerge ea' true a' None q1 q2))
+        | (l, Skip q2') => (l, Skip (QMerge ea' eb' a' None q1 q2'))
+        | (l, Item y q2') => (l, Skip (QMerge ea' eb' a' (Some y) q1 q2'))
+        | (l, Fail e) => (l, Fail e) end)
+       /\ step_bound (j + 1) (snd (match next p2 q2 with
+        | (l, Done) => (l, Skip (QMerge ea' true a' None q1 q2))
+        | (l, Skip q2') => (l, Skip (QMerge ea' eb' a' None q1 q2'))
+        | (l, Item y q2') => (l, Skip (QMerge ea' eb' a' (Some y) q1 q2'))
+        | (l, Fail e) => (l, Fail e) end))).
+    { intros ea' eb' a' Hi. destruct (IH2 p2' q2 j Ha2 Hq2 Hj Hi) as [En Hb]. rewrite En.
+      destruct (next p2 q2) as [l r]. cbn [snd] in Hb.
+      destruct r; cbn [step_bound snd qbound] in *; split; auto. }
+    assert (S3 : forall x y, incl (fst (match less x y with
+                  | Ok true => ([Ev ci [x; y]], Item x (QMerge ea eb None b q1 q2))
+                  | Ok false => ([Ev ci [x; y]], Item y (QMerge ea eb a None q1 q2))
+                  | Err e => ([Ev ci [x; y]], Fail e) end)) L -> less x y = less' x y).
+    { intros x y Hi. apply Hg. destruct (less x y) as [[|]|]; cbn [fst] in Hi; apply Hi; left; reflexivity. }
+    destruct a as [x|]; destruct ea; destruct b as [y|]; destruct eb;
+      try (apply S1; destruct (next p1 q1) as [l r]; destruct r; exact Hin);
+      try (apply S2; destruct (next p2 q2) as [l r]; destruct r; exact Hin);
+      try (split; [reflexivity|cbn [snd step_bound qbound]; auto]);
+      try (rewrite <- (S3 x y Hin); split; [reflexivity|];
+           destruct (less x y) as [[|]|]; cbn [snd step_bound qbound]; auto).
 Qed.
 
 Lemma term_item_agree : forall L t t' s v,
@@ -383,10 +484,10 @@ Proof. intros a b L H x Hx. apply H. apply in_or_app. right. exact Hx. Qed.
 
 Lemma loop_agree : forall L M fuel p p' t t' q s j l o n,
   loop fuel p t q s = (l, o, n) -> incl l L ->
-  agree_pipe L M p p' -> agree_term L t t' -> qbound j q -> j + Z.of_nat n <= M ->
+  agree_pipe L M p p' -> agree_term L t t' -> qbound j q -> 0 <= j -> j + Z.of_nat n <= M ->
   loop fuel p' t' q s = (l, o, n).
 Proof.
-  intros L M fuel. induction fuel as [|f IH]; intros p p' t t' q s j l o n H Hin Hp Ht Hq Hj; cbn [loop] in *.
+  intros L M fuel. induction fuel as [|f IH]; intros p p' t t' q s j l o n H Hin Hp Ht Hq Hj0 Hj; cbn [loop] in *.
   - exact H.
   - destruct (next p q) as [l0 r] eqn:En.
     assert (Hn1 : (1 <= n)%nat).
@@ -412,7 +513,7 @@ Proof.
     + rewrite (term_done_agree L t t' s Ht). exact H.
     + destruct (loop f p t q' s) as [[l' o'] n'] eqn:El. inversion H; subst.
       assert (E2 : loop f p' t' q' s = (l', o, n')).
-      { apply (IH p p' t t' q' s (j + 1) l' o n' El); try assumption; [eapply incl_app_r; exact Hin|lia]. }
+      { apply (IH p p' t t' q' s (j + 1) l' o n' El); try assumption; [eapply incl_app_r; exact Hin|lia|lia]. }
       rewrite E2. reflexivity.
     + destruct (term_item t s v) as [l1 tr] eqn:Et.
       assert (Eti : term_item t' s v = term_item t s v).
@@ -424,7 +525,7 @@ Proof.
       rewrite Eti, Et. destruct tr as [s'|o'']; [|exact H].
       destruct (loop f p t q' s') as [[l' o'] n'] eqn:El. inversion H; subst.
       assert (E2 : loop f p' t' q' s' = (l', o, n')).
-      { apply (IH p p' t t' q' s' (j + 1) l' o n' El); try assumption; [|lia].
+      { apply (IH p p' t t' q' s' (j + 1) l' o n' El); try assumption; [|lia|lia].
         eapply incl_app_r. eapply incl_app_r. exact Hin. }
       rewrite E2. reflexivity.
     + exact H.
@@ -456,7 +557,7 @@ Proof.
     rewrite run_loop by (eapply agree_term_not_none; eassumption).
     rewrite (init_agree _ _ _ _ Hp).
     eapply (loop_agree l (Z.of_nat n)); try eassumption;
-      [apply incl_refl|apply init_qbound|lia].
+      [apply incl_refl|apply init_qbound|lia|lia].
 Qed.
 
 (* ------------------------------------------------------------------ corollaries for numbers(n) *)
@@ -467,6 +568,8 @@ Fixpoint set_numbers (m : Z) (p : pipe) : pipe :=
   | PList l => PList l
   | PStage s p' => PStage s (set_numbers m p')
   | PApp a b => PApp (set_numbers m a) (set_numbers m b)
+  | PCross i g a b => PCross i g (set_numbers m a) (set_numbers m b)
+  | PMerge i g a b => PMerge i g (set_numbers m a) (set_numbers m b)
   end.
 
 (* every numbers source has at least m elements *)
@@ -476,6 +579,7 @@ Fixpoint numbers_ge (m : Z) (p : pipe) : Prop :=
   | PList _ => True
   | PStage _ p' => numbers_ge m p'
   | PApp a b => numbers_ge m a /\ numbers_ge m b
+  | PCross _ _ a b | PMerge _ _ a b => numbers_ge m a /\ numbers_ge m b
   end.
 
 Lemma agree_stage_refl : forall L s, agree_stage L s s.
@@ -486,11 +590,13 @@ Proof. intros L t. destruct t; cbn; repeat split; intros; reflexivity. Qed.
 
 Lemma agree_set_numbers : forall L M m p, numbers_ge M p -> M <= m -> agree_pipe L M p (set_numbers m p).
 Proof.
-  intros L M m p. induction p as [n|l|s p IH|a IHa b IHb]; cbn [numbers_ge set_numbers agree_pipe]; intros H Hm.
+  intros L M m p. induction p as [n|l|s p IH|a IHa b IHb|ci g a IHa b IHb|ci g a IHa b IHb]; cbn [numbers_ge set_numbers agree_pipe]; intros H Hm.
   - right. lia.
   - reflexivity.
   - split; [apply agree_stage_refl|apply IH; assumption].
   - destruct H. split; [apply IHa|apply IHb]; assumption.
+  - destruct H. split; [reflexivity|]. split; [intros x y _; reflexivity|]. split; [apply IHa|apply IHb]; assumption.
+  - destruct H. split; [reflexivity|]. split; [intros x y _; reflexivity|]. split; [apply IHa|apply IHb]; assumption.
 Qed.
 
 (* the length of the sources is irrelevant beyond the number of steps the consumer made *)
@@ -629,4 +735,208 @@ Proof.
     destruct r as [|q'|v q'|e]; cbn [fst snd]; try lia.
     specialize (IH p q'). destruct (drain f p q') as [l' n]. cbn [fst snd] in *.
     rewrite count_app, Nat.mul_succ_r. lia.
+Qed.
+
+(* ------------------------------------------------------------------ cross: demand on the second list
+   p1.cross(p2.map(f), g): every evaluation of the map closure f of the second list is followed by the
+   evaluation of g on that element (unless f fails, which ends the run): column j of the second list is
+   produced only when a row reaches column j.  (A cross that stores its second list first evaluates f
+   on the whole list before the first call of g.) *)
+
+Lemma count_one_same : forall id a, count id [Ev id a] = 1%nat.
+Proof. intros id a. rewrite count_one, N.eqb_refl. reflexivity. Qed.
+
+Lemma count_one_other : forall id i a, i <> id -> count id [Ev i a] = O.
+Proof. intros id i a H. rewrite count_one. destruct (N.eqb_spec i id); [contradiction|reflexivity]. Qed.
+
+Definition fail1 (r : step) : nat := match r with Fail _ => 1%nat | _ => O end.
+
+Lemma cross_step_second : forall ci g p1 id2 f p0 q, id2 <> ci ->
+  occ_pipe id2 p1 = O -> occ_pipe id2 p0 = O ->
+  (count id2 (fst (next (PCross ci g p1 (PStage (SMap id2 f) p0)) q))
+   <= count ci (fst (next (PCross ci g p1 (PStage (SMap id2 f) p0)) q))
+      + fail1 (snd (next (PCross ci g p1 (PStage (SMap id2 f) p0)) q)))%nat.
+Proof.
+  intros ci g p1 id2 f p0 q Hne H1 H0.
+  assert (Hne' : ci <> id2) by congruence.
+  destruct q as [| | | |row q1 q2|]; try (cbn; lia).
+  destruct row as [a|].
+  - cbn [next]. destruct q2 as [| |ss q0| | |]; try (cbn; lia).
+    cbn [stage_done].
+    pose proof (next_count0 id2 p0 q0 H0) as Hc. destruct (next p0 q0) as [l0 r0]. cbn [fst] in Hc.
+    destruct r0 as [|q0'|v q0'|e]; cbn [fst snd fail1]; try lia.
+    cbn [stage_item]. destruct (f v) as [y|e].
+    + destruct (g a y); cbn [fst snd fail1];
+        rewrite !count_app, count_one_same, (count_one_other id2 ci) by exact Hne';
+        rewrite (count_one_same ci); lia.
+    + cbn [fst snd fail1]. rewrite !count_app, count_one_same. lia.
+  - cbn [next]. pose proof (next_count0 id2 p1 q1 H1) as Hc.
+    destruct (next p1 q1) as [l r]. cbn [fst] in Hc. destruct r; cbn [fst snd fail1]; lia.
+Qed.
+
+Lemma loop_cross_second : forall ci g p1 id2 f p0 t, id2 <> ci ->
+  occ_pipe id2 p1 = O -> occ_pipe id2 p0 = O -> occ_term id2 t = O ->
+  forall fuel q s l o n,
+  loop fuel (PCross ci g p1 (PStage (SMap id2 f) p0)) t q s = (l, o, n) ->
+  (count id2 l <= count ci l + 1)%nat.
+Proof.
+  intros ci g p1 id2 f p0 t Hne H1 H0 Ht fuel. induction fuel as [|fu IH]; intros q s l o n H; cbn [loop] in H.
+  - inversion H; subst. cbn. lia.
+  - pose proof (cross_step_second ci g p1 id2 f p0 q Hne H1 H0) as Hs.
+    destruct (next (PCross ci g p1 (PStage (SMap id2 f) p0)) q) as [l0 r]. cbn [fst snd] in Hs.
+    destruct r as [|q'|v q'|e]; cbn [fail1] in Hs.
+    + inversion H; subst. lia.
+    + destruct (loop fu _ t q' s) as [[l' o'] n'] eqn:El. inversion H; subst.
+      apply IH in El. rewrite !count_app. lia.
+    + pose proof (term_item_count0 id2 t s v Ht) as Hti.
+      destruct (term_item t s v) as [l1 tr]. cbn [fst] in Hti. destruct tr as [s'|o'].
+      * destruct (loop fu _ t q' s') as [[l' o''] n'] eqn:El. inversion H; subst.
+        apply IH in El. rewrite !count_app. lia.
+      * inversion H; subst. rewrite !count_app. lia.
+    + inversion H; subst. lia.
+Qed.
+
+Lemma run_cross_second : forall ci g p1 id2 f p0 t fuel l o n, id2 <> ci ->
+  occ_pipe id2 p1 = O -> occ_pipe id2 p0 = O -> occ_term id2 t = O ->
+  run fuel t (PCross ci g p1 (PStage (SMap id2 f) p0)) = (l, o, n) ->
+  (count id2 l <= count ci l + 1)%nat.
+Proof.
+  intros ci g p1 id2 f p0 t fuel l o n Hne H1 H0 Ht H.
+  destruct (term_none_dec t) as [E|E].
+  - subst t. cbn in H. inversion H; subst. cbn. lia.
+  - rewrite run_loop in H by exact E. exact (loop_cross_second ci g p1 id2 f p0 t Hne H1 H0 Ht _ _ _ _ _ _ H).
+Qed.
+
+(* merge: a step asks at most one of the two operands for one step (never both) *)
+Lemma merge_step_one_side : forall ci less p1 p2 q,
+  exists l r, next (PMerge ci less p1 p2) q = (l, r) /\
+    ((exists q1, l = fst (next p1 q1)) \/ (exists q2, l = fst (next p2 q2)) \/ (exists x y, l = [Ev ci [x; y]]) \/ l = []).
+Proof.
+  intros ci less p1 p2 q. destruct q as [| | | | |ea eb a b q1 q2]; cbn [next];
+    try (eexists; eexists; split; [reflexivity|]; right; right; right; reflexivity).
+  destruct a as [x|]; destruct ea; destruct b as [y|]; destruct eb;
+    try (destruct (next p1 q1) as [l r] eqn:E; destruct r; eexists; eexists; (split; [reflexivity|]); left; exists q1; rewrite E; reflexivity);
+    try (destruct (next p2 q2) as [l r] eqn:E; destruct r; eexists; eexists; (split; [reflexivity|]); right; left; exists q2; rewrite E; reflexivity);
+    try (destruct (less x y) as [[|]|]; eexists; eexists; (split; [reflexivity|]); right; right; left; exists x, y; reflexivity);
+    try (eexists; eexists; split; [reflexivity|]; right; right; right; reflexivity).
+Qed.
+
+(* ------------------------------------------------------------------ merge: demand on both operands
+   pa.map(fa).merge(pb.map(fb), less).map(fm): each operand is at most ONE element ahead of what the
+   merge has delivered (counted by the closure fm directly above it):
+        calls of fa <= calls of fm + 1      and      calls of fb <= calls of fm + 1. *)
+
+Definition wt (a : option Z) : nat := match a with Some _ => 1%nat | None => O end.
+Definition itemfail (r : step) : nat := match r with Item _ _ | Fail _ => 1%nat | _ => O end.
+
+(* the element of the first (sel = false) / second (sel = true) operand that is waiting to be compared *)
+Definition wq (sel : bool) (q : pstate) : nat :=
+  match q with
+  | QStage _ (QMerge _ _ a b _ _) => wt (if sel then b else a)
+  | _ => O
+  end.
+Definition wnext (sel : bool) (r : step) : nat :=
+  match r with Skip q | Item _ q => wq sel q | _ => 1%nat end.
+
+Lemma wt_le1 : forall a, (wt a <= 1)%nat.
+Proof. destruct a; cbn; lia. Qed.
+
+Lemma map_step_count : forall id f p0 q, occ_pipe id p0 = O ->
+  (count id (fst (next (PStage (SMap id f) p0) q)) <= itemfail (snd (next (PStage (SMap id f) p0) q)))%nat.
+Proof.
+  intros id f p0 q H0. destruct q as [| |ss q0| | |]; try (cbn; lia).
+  cbn [next stage_done]. pose proof (next_count0 id p0 q0 H0) as Hc.
+  destruct (next p0 q0) as [l r]. cbn [fst] in Hc.
+  destruct r as [|q'|v q'|e]; cbn [fst snd itemfail]; try lia.
+  cbn [stage_item]. destruct (f v); cbn [fst snd itemfail]; rewrite count_app, count_one_same; lia.
+Qed.
+
+Section MergeSide.
+  Variables (idx idm ci : N) (fm : fn1) (less : pr2) (A B : pipe) (sel : bool).
+  Hypothesis Hxm : idm <> idx.
+  Hypothesis Hxc : ci <> idx.
+  (* the operand under observation logs idx at most once per step, and only when it yields or fails;
+     the other operand never logs idx *)
+  Hypothesis Hown : forall q, (count idx (fst (next (if sel then B else A) q)) <= itemfail (snd (next (if sel then B else A) q)))%nat.
+  Hypothesis Hother : forall q, count idx (fst (next (if sel then A else B) q)) = O.
+
+  Let P := PStage (SMap idm fm) (PMerge ci less A B).
+
+  Lemma merge_step_side : forall q,
+    (count idx (fst (next P q)) + wq sel q <= count idm (fst (next P q)) + wnext sel (snd (next P q)))%nat.
+  Proof.
+    intros q. unfold P.
+    destruct q as [| |ssm q'| | |]; try (cbn; lia).
+    cbn [next stage_done].
+    destruct q' as [| | | | |ea eb a b qa qb]; try (cbn; lia).
+    pose proof (wt_le1 a) as Wa. pose proof (wt_le1 b) as Wb.
+    assert (HA : (count idx (fst (next A qa)) <= (if sel then O else itemfail (snd (next A qa))))%nat).
+    { destruct sel; [rewrite (Hother qa); lia|apply (Hown qa)]. }
+    assert (HB : (count idx (fst (next B qb)) <= (if sel then itemfail (snd (next B qb)) else O))%nat).
+    { destruct sel; [apply (Hown qb)|rewrite (Hother qb); lia]. }
+    cbn [next].
+    destruct (next A qa) as [la ra]. destruct (next B qb) as [lb rb]. cbn [fst snd] in HA, HB.
+    destruct a as [x|]; destruct ea; destruct b as [y|]; destruct eb;
+      try (destruct ra; destruct sel; cbn [fst snd wq wt wnext itemfail] in *; lia);
+      try (destruct rb; destruct sel; cbn [fst snd wq wt wnext itemfail] in *; lia);
+      try (destruct (less x y) as [[|]|]); cbn [stage_item];
+      try (destruct (fm x)); try (destruct (fm y));
+      destruct sel; cbn [fst snd wq wt wnext itemfail stage_item];
+      rewrite ?count_app, ?count_one_same, ?(count_one_other idx ci) by exact Hxc;
+      rewrite ?(count_one_other idx idm) by exact Hxm; cbn [count filter length]; lia.
+  Qed.
+
+  Lemma merge_loop_side : forall t, occ_term idx t = O ->
+    forall fuel q s l o n, loop fuel P t q s = (l, o, n) ->
+    (count idx l + wq sel q <= count idm l + 1)%nat.
+  Proof.
+    intros t Ht fuel. induction fuel as [|fu IH]; intros q s l o n H; cbn [loop] in H.
+    - inversion H; subst. cbn [count filter length].
+      destruct q as [| |ss q'| | |]; cbn [wq]; try lia. destruct q'; try lia.
+      pose proof (wt_le1 (if sel then b else a)). lia.
+    - pose proof (merge_step_side q) as Hs.
+      destruct (next P q) as [l0 r]. cbn [fst snd] in Hs.
+      destruct r as [|q'|v q'|e]; cbn [wnext] in Hs.
+      + inversion H; subst. lia.
+      + destruct (loop fu P t q' s) as [[l' o'] n'] eqn:El. inversion H; subst.
+        apply IH in El. rewrite !count_app. lia.
+      + pose proof (term_item_count0 idx t s v Ht) as Hti.
+        destruct (term_item t s v) as [l1 tr]. cbn [fst] in Hti. destruct tr as [s'|o'].
+        * destruct (loop fu P t q' s') as [[l' o''] n'] eqn:El. inversion H; subst.
+          apply IH in El. rewrite !count_app. lia.
+        * inversion H; subst. rewrite !count_app.
+          assert (wq sel q' <= 1)%nat.
+          { destruct q' as [| |ss q''| | |]; cbn [wq]; try lia. destruct q''; try lia. apply wt_le1. }
+          lia.
+      + inversion H; subst. lia.
+  Qed.
+End MergeSide.
+
+Lemma occ_map_other : forall id i f p0, i <> id -> occ_pipe id p0 = O -> occ_pipe id (PStage (SMap i f) p0) = O.
+Proof.
+  intros id i f p0 H H0. cbn [occ_pipe occ_stage]. rewrite H0.
+  destruct (N.eqb_spec i id); [contradiction|reflexivity].
+Qed.
+
+Lemma run_merge_both : forall ida idb idm ci fa fb fm less pa pb t fuel l o n,
+  ida <> idb -> idm <> ida -> idm <> idb -> ci <> ida -> ci <> idb ->
+  occ_pipe ida pa = O -> occ_pipe ida pb = O -> occ_pipe idb pa = O -> occ_pipe idb pb = O ->
+  occ_term ida t = O -> occ_term idb t = O ->
+  run fuel t (PStage (SMap idm fm) (PMerge ci less (PStage (SMap ida fa) pa) (PStage (SMap idb fb) pb))) = (l, o, n) ->
+  (count ida l <= count idm l + 1)%nat /\ (count idb l <= count idm l + 1)%nat.
+Proof.
+  intros ida idb idm ci fa fb fm less pa pb t fuel l o n Hab Hma Hmb Hca Hcb Haa Hab' Hba Hbb Hta Htb H.
+  destruct (term_none_dec t) as [E|E].
+  - subst t. cbn in H. inversion H; subst. cbn. lia.
+  - rewrite run_loop in H by exact E. split.
+    + pose proof (merge_loop_side ida idm ci fm less (PStage (SMap ida fa) pa) (PStage (SMap idb fb) pb) false
+                    Hma Hca (fun q => map_step_count ida fa pa q Haa)
+                    (fun q => next_count0 ida _ q (occ_map_other ida idb fb pb (fun e => Hab (eq_sym e)) Hab'))
+                    t Hta _ _ _ _ _ _ H) as R.
+      cbn [init wq wt] in R. lia.
+    + pose proof (merge_loop_side idb idm ci fm less (PStage (SMap ida fa) pa) (PStage (SMap idb fb) pb) true
+                    Hmb Hcb (fun q => map_step_count idb fb pb q Hbb)
+                    (fun q => next_count0 idb _ q (occ_map_other idb ida fa pa Hab Hba))
+                    t Htb _ _ _ _ _ _ H) as R.
+      cbn [init wq wt] in R. lia.
 Qed.
